@@ -154,6 +154,12 @@ class Decoder:
         if sym == 'int':
             k = self.ints[self.base + idx]
             return k, ('c', k)
+        if sym == 'T':
+            return True, ('c', True)          # Python constants of other types that compare == with ints
+        if sym == 'fl':
+            return 1.0, ('c', 1.0)
+        if sym == 'F0':
+            return Functor(self.names[2], []), ('f', self.names[2], ())     # a compound without arguments, same name as F1
         if sym == 'A':
             return Atom(self.names[0]), ('a', self.names[0])
         if sym == 'B':
